@@ -14,6 +14,7 @@ import OPModel.Drive.C10
 import OPModel.Drive.C11
 import OPModel.Drive.C13
 import OPModel.Drive.C15
+import OPModel.Drive.C18
 
 open OP
 
@@ -37,6 +38,8 @@ def handle (line : String) : String :=
   | "slices" :: args => Drive.slicesOp args
   | "cost" :: args => Drive.cost args
   | "lmtd" :: args => Drive.lmtdOp args
+  | "hpmetrics" :: args => Drive.hpmetrics args
+  | "hpstreams" :: args => Drive.hpstreams args
   | "pinch" :: args => Drive.pinch args
   | "pincht" :: args => Drive.pincht args
   | _ => "bad-op"
